@@ -205,6 +205,30 @@ pub fn dense_grow_words(gap: usize) {
     std::mem::forget(c);
 }
 
+/// Rebase across bitmap words: 128 packed rows at base 64 with one hole in the second word; a write at row 0
+/// (64 rows below the base: the bitmap shifts by exactly one word).  The hole must stay a hole, the written row
+/// must read back, every other row keeps its value.
+pub fn dense_rebase_words() {
+    let v0: i64 = kani::any();
+    let mut vals = vec![v0; 128];
+    vals[69] = 0;
+    let mut c: ColumnData<i64> = ColumnData::Dense { base: 64, values: vals, present: vec![u64::MAX, u64::MAX & !(1u64 << 5)], count: 127 };
+    let v: i64 = kani::any();
+    c.set(0, v);
+    assert!(c.get(0) == Some(&v), "C30 a row reads back the last value set");
+    assert!(c.get(64 + 69).is_none(), "C30 a removed row came back after a rebase");
+    assert!(c.len() == 128, "C30 len after set");
+    let j: usize = kani::any();
+    kani::assume(j < 260);
+    if j >= 64 && j < 192 && j != 64 + 69 {
+        assert!(c.get(j) == Some(&v0), "C30 set changed another row");
+    } else if j != 0 {
+        assert!(c.get(j).is_none(), "C30 set invented a row");
+    }
+    vk_cover!(matches!(c, ColumnData::Dense { .. }), "reach stays dense");
+    std::mem::forget(c);
+}
+
 /// dense_is_smaller over all 64-bit arguments: no overflow/panic (Kani's checks), never true for an empty
 /// column, and never true when the span is so large that the dense array could not be smaller
 /// ("one far-away row must not allocate the universe").
